@@ -330,12 +330,109 @@ impl Scenario for Scn {
     }
 }
 
+// ---------------------------------------------------------------- an open search against a live responder
+
+/// A resolver with no timeout and a scripted responder that answers every question the daemon asks
+/// about the host with the records of the type asked (as the crate's own responder does).  While the
+/// host keeps answering, every address must be found and none may ever be reported removed: the
+/// daemon has to refresh each record before it expires.
+fn run_live_responder(set: u64, ttl: u32, trace: bool) -> CaseResult {
+    let mut res = CaseResult::default();
+    let mut w = World::one(lay_dual());
+    w.trace = trace;
+    w.ds[0].h.set_ip_check_interval(3600).unwrap();
+    w.poke(0);
+    let rx = w.ds[0].h.resolve_hostname("h.local.", None).unwrap();
+    let ch = w.add_host(0, rx);
+    let host = n("h.local");
+    let v4s: Vec<[u8; 4]> = match set { 0 => vec![[10, 0, 0, 9]], 1 => vec![], 2 => vec![[10, 0, 0, 9]], _ => vec![[10, 0, 0, 9], [10, 0, 0, 10]] };
+    let v6s: Vec<std::net::Ipv6Addr> = match set { 0 => vec![], _ => vec!["fd00::9".parse().unwrap()] };
+    let mut seen = w.log.len();
+    w.poke(0);
+    let end = T0 + (3 * ttl as u64 + 5) * 1000;
+    let mut answered = 0u64;
+    let mut guard = 0;
+    loop {
+        guard += 1;
+        if guard > 200_000 {
+            res.viols.push(viol("C17|live-responder|harness-guard", "too many steps".to_string()));
+            break;
+        }
+        // questions asked since the last look
+        let mut want_a = false;
+        let mut want_aaaa = false;
+        for e in &w.log[seen..] {
+            if let Kind::Out(o) = &e.kind {
+                if let Ok(m) = &o.msg {
+                    if !m.is_response() {
+                        for q in &m.questions {
+                            if name_eq_ci(&q.name, &host) {
+                                want_a |= q.qtype == T_A || q.qtype == T_ANY;
+                                want_aaaa |= q.qtype == T_AAAA || q.qtype == T_ANY;
+                            }
+                        }
+                    }
+                }
+            }
+        }
+        seen = w.log.len();
+        if want_a || want_aaaa {
+            let mut recs = vec![];
+            if want_a {
+                recs.extend(v4s.iter().map(|ip| a(&host, *ip, ttl)));
+            }
+            if want_aaaa {
+                recs.extend(v6s.iter().map(|ip| aaaa(&host, *ip, ttl)));
+            }
+            if !recs.is_empty() {
+                answered += 1;
+                w.deliver(0, IF0, PEER0, build(&response(recs)));
+                continue;
+            }
+        }
+        if !w.wake_next(end) {
+            break;
+        }
+    }
+    res.count("questions_answered", answered);
+    let evs = hevs(&w, 0, ch, 0);
+    let all: Vec<IpAddr> = v4s.iter().map(|x| ip4(*x)).chain(v6s.iter().map(|x| IpAddr::V6(*x))).collect();
+    for ip in &all {
+        if !evs.iter().any(|(_, e)| matches!(e, HEv::Found(_, v) if v.iter().any(|x| x.ip == *ip))) {
+            res.viols.push(viol("C17|live-responder|address-never-found", format!("{ip} (ttl {ttl}, set {set}); events {:?}", evs.iter().map(|(t, e)| (t - T0, format!("{e:?}"))).collect::<Vec<_>>())));
+        }
+        if let Some((t, _)) = evs.iter().find(|(_, e)| matches!(e, HEv::Removed(_, v) if v.iter().any(|x| x.ip == *ip))) {
+            res.viols.push(viol("C17|live-responder|address-of-an-answering-host-reported-removed", format!("{ip} at +{} (ttl {ttl}, set {set}): every question was answered at once, the record should have been refreshed before it expired", t - T0)));
+        }
+    }
+    if let Some(f) = daemon_fault(&w, 0) {
+        res.viols.push(viol("C17|daemon-fault", f));
+    }
+    res.nontrivial = true;
+    res.transitions = w.steps;
+    res.outcome = outcome_hash(&w.log);
+    res.states = final_states(&w);
+    res
+}
+
 pub fn check(tier: &str) -> i32 {
     let mut rep = Report::new("C17", tier, "model_checking");
     let thorough = rep.thorough();
     rep.assume("a cached copy is identified by owner spelling, cache-flush bit, address and interface (what the crate's record equality uses); goodbyes are sent with the same bits as the record they withdraw");
     let scn = Scn { horizon_ms: 13_000 };
     rep.run_bfs(&scn, if thorough { 5 } else { 4 }, Duration::from_secs(if thorough { 3000 } else { 50 }));
+    let ttls: Vec<u32> = if thorough { vec![2, 3, 5, 10, 30, 120, 600] } else { vec![3, 10, 120] };
+    let nt = ttls.len() as u64;
+    let tt = ttls.clone();
+    let live = FnPart {
+        name: "open-search-against-a-live-responder".into(),
+        rule: "a resolver without timeout and a scripted responder answering every A / AAAA question about the host with the records of the type asked; address sets {one A | one AAAA | A + AAAA | two A + AAAA} x TTLs; over three TTLs every address must be found and none reported removed".into(),
+        n: 4 * nt,
+        describe: Box::new(move |i| format!("address set {} ttl {}", i / nt, tt[(i % nt) as usize])),
+        run: Box::new(move |i, tr| run_live_responder(i / nt, ttls[(i % nt) as usize], tr)),
+    };
+    rep.run_part(&live, Duration::from_secs(120));
+    rep.require("open-search-against-a-live-responder", "questions_answered");
     rep.require("hostname-resolution-sequences", "nonempty_views_compared");
     rep.require("hostname-resolution-sequences", "timeouts_checked");
     rep.finish()
